@@ -6,6 +6,7 @@ package c09
 import (
 	"fmt"
 	"runtime"
+	"strconv"
 	"strings"
 	"sync"
 	"sync/atomic"
@@ -176,6 +177,9 @@ func (tr *Tr) spec(h string, c Cfg) alertservice.HandlerSpec {
 	sp := alertservice.HandlerSpec{ID: h, Topic: tr.real(c.Topic), Match: matchExpr[c.Match]}
 	if c.Kind == "rec" {
 		sp.Kind = "talk"
+	} else if c.Kind == "agg" {
+		sp.Kind = "aggregate"
+		sp.Options = map[string]interface{}{"id": "agg", "interval": 3 * time.Millisecond, "topic": tr.real(c.Targets[0]), "message": "{{ .Count }}"}
 	} else {
 		sp.Kind = "publish"
 		ts := make([]interface{}, len(c.Targets))
@@ -220,6 +224,14 @@ func (tr *Tr) seenOf(st *hstate) []any {
 		return out
 	}
 	for _, e := range st.rec.Snapshot() {
+		if e.State.ID == "agg" {
+			n, err := strconv.Atoi(e.State.Message)
+			if err != nil {
+				rt.Fatalf("c09: aggregate summary without a count message: %q", e.State.Message)
+			}
+			out = append(out, []any{tr.model(e.Topic), e.State.ID, int(e.State.Level), int(e.PreviousState().Level), n})
+			continue
+		}
 		out = append(out, []any{tr.model(e.Topic), e.State.ID, int(e.State.Level), int(e.PreviousState().Level)})
 	}
 	return out
@@ -322,7 +334,7 @@ func (tr *Tr) Obs() {
 
 // End tears the trace down (publishers first so nothing is in flight).
 func (tr *Tr) End() {
-	for _, kind := range []string{"publish", "rec"} {
+	for _, kind := range []string{"publish", "agg", "rec"} {
 		for _, h := range rt.SortedKeys(tr.hs) {
 			if tr.hs[h].cfg.Kind == kind {
 				tr.Deregister(h)
